@@ -192,6 +192,7 @@ fn main() {
             reg_enum!(jobs, "addsub_limb_alphabet", enum_alphabet_pairs, body; [65, 127, 128, 129, 190, 192, 250, 256]);
             w_all_wide!(reg_gen!(jobs, "addsub", 20000, strat, body;));
             w_giant!(reg_gen!(jobs, "addsub", 1500, strat, body;));
+            w_dense!(reg_gen!(jobs, "addsub", 1500, strat, body;));
         },
         |_| Map::new(),
     );
